@@ -2780,6 +2780,14 @@ impl<T: Storage> Raft<T> {
         let cs = self.prs.conf().to_conf_state();
         let is_voter = self.prs.conf().voters.contains(self.id);
         self.promotable = is_voter;
+        // A pending transfer is abandoned when its target is no voter any more, also when
+        // the same change takes this leader out of the voters (the early return below).
+        if self
+            .lead_transferee
+            .is_some_and(|e| !self.prs.conf().voters.contains(e))
+        {
+            self.abort_leader_transfer();
+        }
         if !is_voter && self.state == StateRole::Leader {
             // This node is leader and was removed or demoted. We prevent demotions
             // at the time writing but hypothetically we handle them the same way as
@@ -2835,12 +2843,6 @@ impl<T: Storage> Raft<T> {
             }
         }
 
-        if self
-            .lead_transferee
-            .is_some_and(|e| !self.prs.conf().voters.contains(e))
-        {
-            self.abort_leader_transfer();
-        }
         cs
     }
 
